@@ -29,7 +29,8 @@ NASTY = ['"', '\\', '\\"', '\n', '\r\n', ' ', ' ', '\x00', '\x1f',
 ACCEPT = [None, None, 'gzip', 'deflate', 'gzip, deflate', 'deflate, gzip',
           'gzip;q=0', 'gzip;q=0, deflate', 'deflate;q=0.5, gzip;q=1.0',
           'br', 'br, gzip', ' gzip ', 'GZIP', 'identity', '*',
-          'gzip;q=0.0', 'x-gzip', 'gzip ; q=0', '']
+          'gzip;q=0.0', 'x-gzip', 'gzip ; q=0', '', 'Gzip, Deflate',
+          'DEFLATE;q=1.0', 'Deflate', 'gZip']
 
 
 def gen(rng, tier, i):
